@@ -31,8 +31,38 @@ def goyacc_regen(ctx):
     finally:
         shutil.rmtree(tmp, ignore_errors=True)
 
+def smf_strict(ctx):
+    """C08: the strict SMF reader written from the specification (Lean, Crd.Spec.parseSMF) is run on the REAL bytes
+    of every file the `write`-type streams produced, together with note balance and first-track checks."""
+    import crdcheck
+    reqs, keys = [], []
+    tie = os.path.join(ctx['scratch'], 'tie')
+    for name in ('write', 'dict', 'diatonic'):
+        rq, rl = os.path.join(tie, name + '.req'), os.path.join(tie, name + '.real')
+        if not (os.path.exists(rq) and os.path.exists(rl)):
+            continue
+        for a, b in zip(open(rq, encoding='utf-8'), open(rl, encoding='utf-8')):
+            w = a.split()
+            r = b.split()
+            if len(w) > 6 and w[0] == 'write' and len(r) == 2 and r[0] == 'ok':
+                reqs.append('smfcheck %s %s' % (w[5], r[1]))
+                keys.append(a.strip())
+    violations = []
+    if reqs:
+        m = crdcheck.run([ctx['driver']], stdin=('\n'.join(reqs) + '\n').encode(), timeout=3600)
+        out = m.stdout.decode().split('\n')
+        for k, r, o in zip(keys, reqs, out):
+            if o.strip() != 'holds':
+                violations.append(dict(what='the file crd wrote is not a well-formed SMF under the strict reader: ' + o.strip(),
+                                       input=k[:4000], stream='smf-strict', observed=r[:3000]))
+    return dict(stream=dict(name='smf-strict', cases=len(reqs), distinct=len(set(reqs)), diffs=[],
+                            stats={'real-files-read-by-strict-parser': len(reqs)},
+                            samples=[r[:160] + ' => holds' for r in reqs[:2]]),
+                violations=violations)
+
 EXTRA = {
     'C04': dict(oracles=[goyacc_regen]),
+    'C08': dict(oracles=[smf_strict]),
 }
 
 def matches(finding, violation):
@@ -45,7 +75,46 @@ def matches(finding, violation):
         return bool(fn and fn(violation))
     return False
 
-CLASSES = {}
+def _hex_strings(text):
+    out = []
+    for w in str(text).split():
+        if w.startswith('x') and len(w) > 1:
+            try:
+                out.append(bytes.fromhex(w[1:]).decode('utf-8', 'replace'))
+            except ValueError:
+                pass
+    return out
+
+def _comment_after_underscore(v):
+    txt = str(v.get('input', ''))
+    cands = [txt] + _hex_strings(txt)
+    return any(re.search(r'_[ \t\r\n\\nrt]*;', c) for c in cands)
+
+def _debug_parse_error(v):
+    return '--debug' in str(v.get('input', ''))
+
+def _not_float_safe(v):
+    for s in _hex_strings(v.get('input', '')):
+        m = re.fullmatch(r'(\d+)/(\d+)', s)
+        if m and int(m.group(2)) >= 700000000:
+            return True
+    return False
+
+def _unrepresentable(v):
+    for s in _hex_strings(v.get('input', '')):
+        m = re.fullmatch(r'(\d+)/(\d+)', s)
+        if m:
+            n, d = int(m.group(1)), int(m.group(2))
+            if n > 255 or d > 255 or d == 0 or (d & (d - 1)) != 0:
+                return True
+    return False
+
+CLASSES = {
+    'comment-after-underscore': _comment_after_underscore,
+    'debug-parse-error': _debug_parse_error,
+    'not-float-safe': _not_float_safe,
+    'unrepresentable-setting': _unrepresentable,
+}
 
 def replay(r):
     print("replay: re-run the recorded request through `check <Cxx> quick` streams; see DESIGN.md section 5")
